@@ -332,6 +332,9 @@ func checkC09(c *Ctx) {
 		c.sameDataChecked(ab)
 		c.ruleUniformSize(ab)
 	}
+	if c.ruleNormalise("K8.normalise") == 0 {
+		c.R.Infof("K8.normalise", "-", "pem-or-unchanged", "-", "not decided for this shape: no function of the signature package hands a byte-slice parameter to pem.Decode and returns bytes")
+	}
 	if ap != nil {
 		// known-type guard
 		c.guardedMutations("K0.guard", ap, "known-type", "the database is modified only for signature types found in the table of valid schemes", func(ce ir.CondEdge) bool {
@@ -491,6 +494,36 @@ func (c *Ctx) sameDataChecked(ab *ssa.Function) {
 		}
 	}
 	c.R.Check(ok, "K1.same", name(ab), "checked==stored", c.Pos(ab.Pos()), "the entry data handed to the duplicate check is the value that is appended", det)
+	// K7: the signature size recorded for the list is computed from the bytes that are stored
+	instrsOf(ab, func(i ssa.Instruction) {
+		st, isSt := i.(*ssa.Store)
+		if !isSt || ir.FieldID(st.Addr) != fSize {
+			return
+		}
+		var lens []*ssa.Call
+		for v := range c.sliceOf(st.Val) {
+			if call, isC := v.(*ssa.Call); isC && ir.CallID(call) == "builtin.len" && isByteSlice(call.Call.Args[0].Type()) {
+				lens = append(lens, call)
+			}
+		}
+		if len(lens) == 0 {
+			c.R.Infof("K7.sized", name(ab), "size-of-stored", c.IPos(st), "not decided for this shape: the size written to the list is not computed from len() of a byte slice in this function")
+			return
+		}
+		okS, detS := true, ""
+		for _, lc := range lens {
+			same := false
+			for _, b := range stored {
+				if lc.Call.Args[0] == b {
+					same = true
+				}
+			}
+			if !same {
+				okS, detS = false, "the size is computed from len() of a value ("+c.IPos(lc)+") that is not the data appended to the list (e.g. the PEM text measured, the DER stored)"
+			}
+		}
+		c.R.Check(okS, "K7.sized", name(ab), "size-of-stored", c.IPos(st), "the signature size recorded in the list is the owner GUID plus the length of the bytes that are stored", detS)
+	})
 }
 
 // normalisedSelection (K1 at database level): if the append path normalises
@@ -856,4 +889,79 @@ func (c *Ctx) ruleUniformSize(ab *ssa.Function) {
 		st, ok := i.(*ssa.Store)
 		return ok && ir.FieldID(st.Addr) == fSize
 	})
+}
+
+// ruleNormalise (K8): wherever the library turns PEM input into the stored
+// form, the input is returned unchanged only if the signature type is not a
+// certificate type or pem.Decode found no block: a shortcut that skips the
+// decoder for some inputs stores (and compares) the armoured text.
+func (c *Ctx) ruleNormalise(rule string) int {
+	n := 0
+	for _, g := range c.P.LibFunctions() {
+		if g.Pkg == nil || g.Pkg.Pkg.Path() != sigPkg || g.Signature.Results().Len() != 1 || !isByteSlice(g.Signature.Results().At(0).Type()) {
+			continue
+		}
+		var dec *ssa.Call
+		instrsOf(g, func(i ssa.Instruction) {
+			if call, ok := i.(*ssa.Call); ok && ir.CallID(call) == "encoding/pem.Decode" {
+				dec = call
+			}
+		})
+		if dec == nil {
+			continue
+		}
+		in, isP := ir.StripConv(dec.Call.Args[0]).(*ssa.Parameter)
+		if !isP {
+			continue
+		}
+		n++
+		// edges that justify returning the input: no PEM block found; the type parameter says "not PEM-able"
+		cut := map[ir.Edge]bool{}
+		decReach := func(b *ssa.BasicBlock) bool {
+			seen, _ := ir.Reach(g, b, nil)
+			return seen[dec.Block().Index]
+		}
+		for _, ce := range ir.CondEdges(g) {
+			if v, nilWhenTrue, ok := ir.NilCheck(ce.Cond); ok {
+				if ex, isEx := v.(*ssa.Extract); isEx && ex.Tuple == ssa.Value(dec) && ex.Index == 0 && ce.Truth == nilWhenTrue {
+					cut[ce.Edge] = true
+					continue
+				}
+			}
+			dependsOnInput := false
+			dependsOnOther := false
+			for v := range c.sliceOf(ce.Cond) {
+				if p, ok := v.(*ssa.Parameter); ok {
+					if p == in {
+						dependsOnInput = true
+					} else {
+						dependsOnOther = true
+					}
+				}
+			}
+			if dependsOnOther && !dependsOnInput && !decReach(g.Blocks[ce.Edge.To]) {
+				cut[ce.Edge] = true
+			}
+		}
+		seen, prev := ir.ReachF(g, g.Blocks[0], cut)
+		bad := ""
+		for _, r := range ir.Returns(g) {
+			res := r.Results[0]
+			if ph, isPhi := res.(*ssa.Phi); isPhi {
+				for k, e := range ph.Edges {
+					p := ph.Block().Preds[k]
+					if ir.StripConv(e) == ssa.Value(in) && seen[p.Index] && !cut[ir.Edge{From: p.Index, To: ph.Block().Index}] {
+						bad = ir.PathTo(g, prev, 0, p.Index, c.Pos)
+					}
+				}
+				continue
+			}
+			if ir.StripConv(res) == ssa.Value(in) && seen[r.Block().Index] {
+				bad = ir.PathTo(g, prev, 0, r.Block().Index, c.Pos)
+			}
+		}
+		c.R.Check(bad == "", rule, name(g), "pem-or-unchanged", c.Pos(g.Pos()), "the input is stored unchanged only when pem.Decode finds no block (or the signature type is not a certificate)",
+			"the input is returned unchanged on a path that neither asked pem.Decode nor depends on the signature type alone: "+bad)
+	}
+	return n
 }
